@@ -5,6 +5,7 @@ CONSTANTS
   FORWARD_WAKER = TRUE
   READY_DRAINS = TRUE
   FILTER_MODE = "none"
+  CHAIN_MODE = "none"
   MaxTok = 3
   MaxPairTok = 1
   Toks = {"x", "u", "n", "LF", "CR", "CRLF", "SP", "COLON", "DATA", "EV", "ID", "RETRY", "BOM"}
